@@ -124,6 +124,37 @@ def eqShapeB (cs : List ANode) : Bool :=
   | d0 :: rest => d0.kind == .dollar && eqRestB rest
   | [] => false
 
+/-- Shape of a `MathDelimited`: opening and closing delimiter, between them bodies, white space, comments. -/
+def delimShapeB (cs : List ANode) : Bool :=
+  match cs with
+  | c0 :: rest =>
+    (match rest.getLast? with
+      | some c1 => isExpr c0 && isExpr c1 &&
+          rest.dropLast.all (fun c => c.kind == .math || c.kind == .space || isCommentKind c.kind)
+      | none => false)
+  | [] => false
+
+/-- Shape of the arguments of a call in math: `(`, content that neither starts nor ends with white space, `)`. -/
+def mathArgsShapeB (acs : List ANode) : Bool :=
+  match acs with
+  | lp :: rest =>
+    lp.kind == .leftParen &&
+    (match rest.getLast? with
+      | some rp => rp.kind == .rightParen &&
+          (rest.dropLast.head?.map (fun c => !(c.kind == .leftParen || c.kind == .space))).getD true &&
+          (rest.dropLast.getLast?.map (fun c => !(c.kind == .rightParen || c.kind == .space))).getD true
+      | none => false)
+  | [] => false
+
+/-- Shape of a call in math: callee (not a field access) and parenthesised arguments. -/
+def mathCallShapeB (cs : List ANode) : Bool :=
+  match cs with
+  | [callee, args] => isExpr callee && !(callee.kind == .fieldAccess) &&
+      (match args with
+        | .inner .args acs _ => mathArgsShapeB acs
+        | _ => false)
+  | _ => false
+
 def Kind.isMathFlow : Kind → Bool
   | .mathAttach | .mathRoot | .mathFrac => true
   | _ => false
@@ -147,7 +178,14 @@ def inFragEq : List ANode → Bool
 def inFragM : ANode → Bool
   | .leaf k t a => ANode.tokensAreLeaves (.leaf k t a) && (!k.isExpr || k.isFragLeaf || (k == .parbreak && !a.disabled) || k == .none_ || k == .auto_) && (!k.isInnerKind || (k == .markup && t == ""))
   | .inner k cs _ =>
-    (k.isMathFlow || k == .math || (k == .mathPrimes && cs.all (fun c => c.kind == .prime))) && inFragMS false cs
+    if k == .funcCall then mathCallShapeB cs && inFragMCallL cs else
+    (k.isMathFlow || k == .math || (k == .mathPrimes && cs.all (fun c => c.kind == .prime)) ||
+      (k == .mathDelimited && delimShapeB cs)) && inFragMS false cs
+/-- The children of a call in math mode: the callee, and the arguments (a math sequence). -/
+def inFragMCallL : List ANode → Bool
+  | [] => true
+  | (.inner .args acs _) :: cs => inFragMS false acs && inFragMCallL cs
+  | c :: cs => inFragM c && inFragMCallL cs
 /-- A sequence of children converted in math mode; the flag: the previous sibling is `#`, so the child is
 converted in code mode. -/
 def inFragMS : Bool → List ANode → Bool
@@ -157,6 +195,17 @@ def inFragMS : Bool → List ANode → Bool
      else ANode.tokensAreLeaves c && (c.kind == .space || c.kind == .hash || isCommentKind c.kind || c.kind.isPlainToken || c.kind == .underscore)) &&
     inFragMS (c.kind == .hash) cs
 end
+
+theorem inFragM_inner_call (cs : List ANode) (a : Attrs) :
+    inFragM (.inner .funcCall cs a) = (mathCallShapeB cs && inFragMCallL cs) := by
+  simp [inFragM]
+
+theorem inFragM_inner_ne (k : Kind) (cs : List ANode) (a : Attrs) (hk : k ≠ .funcCall) :
+    inFragM (.inner k cs a) =
+      ((k.isMathFlow || k == .math || (k == .mathPrimes && cs.all (fun c => c.kind == .prime)) ||
+        (k == .mathDelimited && delimShapeB cs)) && inFragMS false cs) := by
+  have : (k == Kind.funcCall) = false := by simpa using hk
+  simp only [inFragM, this, Bool.false_eq_true, ↓reduceIte]
 
 theorem inFrag_inner_eq (cs : List ANode) (a : Attrs) :
     inFrag (.inner .equation cs a) = (eqShapeB cs && inFragEq cs) := by
@@ -210,11 +259,40 @@ theorem inFragM_lex : (n : ANode) → inFragM n = true → ANode.tokensAreLeaves
   | .leaf k t a, h => by
     simp only [inFragM, Bool.and_eq_true] at h; exact h.1.1
   | .inner k cs a, h => by
-    simp only [inFragM, Bool.and_eq_true] at h
-    simp only [ANode.tokensAreLeaves, Bool.and_eq_true]
-    refine ⟨?_, inFragMS_lex false cs h.2⟩
-    have h1 := h.1
-    cases k <;> simp_all [Kind.isMathFlow, Kind.isInnerKind]
+    by_cases hk : k = .funcCall
+    · subst hk
+      rw [inFragM_inner_call] at h
+      simp only [Bool.and_eq_true] at h
+      simp only [ANode.tokensAreLeaves, Bool.and_eq_true]
+      exact ⟨rfl, inFragMCallL_lex cs h.2⟩
+    · rw [inFragM_inner_ne k cs a hk] at h
+      simp only [Bool.and_eq_true] at h
+      simp only [ANode.tokensAreLeaves, Bool.and_eq_true]
+      refine ⟨?_, inFragMS_lex false cs h.2⟩
+      have h1 := h.1
+      cases k <;> simp_all [Kind.isMathFlow, Kind.isInnerKind]
+theorem inFragMCallL_lex : (cs : List ANode) → inFragMCallL cs = true → ANode.tokensAreLeavesL cs = true
+  | [], _ => rfl
+  | (.inner .args acs aa) :: cs, h => by
+    simp only [inFragMCallL, Bool.and_eq_true] at h
+    simp only [ANode.tokensAreLeavesL, ANode.tokensAreLeaves, Bool.and_eq_true]
+    exact ⟨⟨rfl, inFragMS_lex false acs h.1⟩, inFragMCallL_lex cs h.2⟩
+  | (.leaf k t a) :: cs, h => by
+    simp only [inFragMCallL, Bool.and_eq_true] at h
+    simp only [ANode.tokensAreLeavesL, Bool.and_eq_true]
+    exact ⟨inFragM_lex _ h.1, inFragMCallL_lex cs h.2⟩
+  | (.inner k ics a) :: cs, h => by
+    by_cases hk : k = .args
+    · subst hk
+      simp only [inFragMCallL, Bool.and_eq_true] at h
+      simp only [ANode.tokensAreLeavesL, ANode.tokensAreLeaves, Bool.and_eq_true]
+      exact ⟨⟨rfl, inFragMS_lex false ics h.1⟩, inFragMCallL_lex cs h.2⟩
+    · have he : inFragMCallL (.inner k ics a :: cs) = (inFragM (.inner k ics a) && inFragMCallL cs) := by
+        cases k <;> first | exact absurd rfl hk | rfl
+      rw [he] at h
+      simp only [Bool.and_eq_true] at h
+      simp only [ANode.tokensAreLeavesL, Bool.and_eq_true]
+      exact ⟨inFragM_lex _ h.1, inFragMCallL_lex cs h.2⟩
 theorem inFragMS_lex : (hh : Bool) → (cs : List ANode) → inFragMS hh cs = true → ANode.tokensAreLeavesL cs = true
   | _, [], _ => rfl
   | hh, c :: cs, h => by
@@ -275,6 +353,27 @@ theorem inFragM_math_inner (c : ANode) (hk : c.kind = .math) (hq : inFragM c = t
     simp only [ANode.kind] at hk; subst hk
     simp [inFragM, Kind.isInnerKind] at hq
   | inner k mcs a => simp only [ANode.kind] at hk; subst hk; exact ⟨mcs, a, rfl⟩
+
+theorem expr_not_hash {c : ANode} (h : isExpr c = true) : (c.kind == .hash) = false := by
+  have : c.kind.isExpr = true := h
+  cases hk : c.kind <;> simp_all [Kind.isExpr]
+
+theorem inFragMS_nohash (l : List ANode) (h : inFragMS false l = true) (hnh : ∀ c ∈ l, (c.kind == .hash) = false) :
+    ∀ c ∈ l, ANode.tokensAreLeaves c = true ∧ (isExpr c = true → inFragM c = true) := by
+  induction l with
+  | nil => intro c hc; cases hc
+  | cons x xs ih =>
+    intro c hc
+    have hlexL := inFragMS_lex false (x :: xs) h
+    simp only [ANode.tokensAreLeavesL, Bool.and_eq_true] at hlexL
+    simp only [inFragMS, Bool.and_eq_true] at h
+    rcases List.mem_cons.mp hc with rfl | hc'
+    · refine ⟨hlexL.1, fun hx => ?_⟩
+      have h1 := h.1
+      simpa [hx] using h1
+    · have h2 := h.2
+      rw [hnh x List.mem_cons_self] at h2
+      exact ih h2 (fun y hy => hnh y (List.mem_cons_of_mem _ hy)) c hc'
 
 theorem eqRest_of (rest : List ANode) : eqRestB rest = true → inFragEq rest = true → EqRest QM rest := by
   induction rest with
@@ -1356,8 +1455,79 @@ theorem convExprM_frag (e : Env) (r : Rec) (hr : RecOK r Q) (hrM : RecOKM r QM) 
       exact hq
     exact leaf_expr_frag e r ctx k t a hx hq'
   | inner k cs a =>
-    simp only [inFragM, Bool.and_eq_true] at hq
     have hkx : k.isExpr = true := hx
+    by_cases hcallk : k = .funcCall
+    · -- a call in math mode
+      subst hcallk
+      rw [inFragM_inner_call] at hq
+      simp only [Bool.and_eq_true] at hq
+      split
+      · rename_i hd
+        exact Post.pure (verb_inner_carries e .funcCall cs a (by simpa [ANode.attrs] using hd) rfl)
+      · rename_i hd
+        have hd' : a.disabled = false := by simpa [ANode.attrs] using hd
+        show Post (convFuncCall e r ctx _) _
+        have hsh := hq.1
+        simp only [mathCallShapeB] at hsh
+        rcases cs with _ | ⟨callee, _ | ⟨args, _ | ⟨c2, rest⟩⟩⟩ <;> simp only [Bool.false_eq_true] at hsh
+        simp only [Bool.and_eq_true, Bool.not_eq_true', beq_eq_false_iff_ne, ne_eq] at hsh
+        obtain ⟨⟨hxc, hnf⟩, hargsh⟩ := hsh
+        cases args with
+        | leaf _ _ _ => simp at hargsh
+        | inner ka acs aa =>
+          by_cases hka : ka = .args
+          · subst hka
+            simp only at hargsh
+            have hql := hq.2
+            have hcnotargs : ∀ ics ia, callee ≠ .inner .args ics ia := by
+              intro ics ia h; rw [h] at hxc; cases hxc
+            have hqcallee : inFragM callee = true ∧ inFragMS false acs = true := by
+              cases callee with
+              | leaf kk tt aa' =>
+                simp only [inFragMCallL, Bool.and_eq_true, Bool.and_true] at hql
+                exact ⟨hql.1, hql.2⟩
+              | inner kk ics ia =>
+                have hkk : kk ≠ .args := by intro h; subst h; cases hxc
+                have he : inFragMCallL [.inner kk ics ia, .inner .args acs aa] =
+                    (inFragM (.inner kk ics ia) && inFragMCallL [.inner .args acs aa]) := by
+                  cases kk <;> first | exact absurd rfl hkk | rfl
+                rw [he] at hql
+                simp only [inFragMCallL, Bool.and_eq_true, Bool.and_true] at hql
+                exact ⟨hql.1, hql.2⟩
+            -- the argument list: `(`, content, `)`
+            simp only [mathArgsShapeB] at hargsh
+            cases acs with
+            | nil => simp at hargsh
+            | cons lp arest =>
+              simp only [Bool.and_eq_true, beq_iff_eq] at hargsh
+              cases hgl : arest.getLast? with
+              | none => simp [hgl] at hargsh
+              | some rp =>
+                simp only [hgl, Bool.and_eq_true, beq_iff_eq] at hargsh
+                obtain ⟨hlpk, ⟨hrpk, hheadB⟩, hlastB⟩ := hargsh
+                have hrest := dropLast_getLast arest rp hgl
+                have hseqA := inFragMS_seq (lp :: arest) false hqcallee.2
+                have hlexA := inFragMS_lex false (lp :: arest) hqcallee.2
+                rw [hrest] at hseqA hlexA ⊢
+                simp only [MathSeqOK] at hseqA
+                have hlpnh : (lp.kind == .hash) = false := by rw [hlpk]; rfl
+                rw [hlpnh] at hseqA
+                have hmidseq := mathSeq_prefix arest.dropLast [rp] false hseqA.2.2
+                simp only [ANode.tokensAreLeavesL, Bool.and_eq_true] at hlexA
+                have hlexrp : ANode.tokensAreLeaves rp = true :=
+                  tokensAreLeavesL_mem hlexA.2 (by simp)
+                refine convFuncCallM_carries e r hrM ctx hm callee _ a hd' hxc hnf hqcallee.1 rfl ?_
+                refine convArgsInMath_carries e r hr hrM ctx hm lp rp arest.dropLast aa hlpk hrpk hlexA.1 hlexrp ?_ ?_ hmidseq
+                · intro c hc
+                  rw [hc] at hheadB
+                  simpa using hheadB
+                · intro c hc
+                  rw [hc] at hlastB
+                  simpa using hlastB
+          · exfalso
+            cases ka <;> first | exact absurd rfl hka | simp at hargsh
+    rw [inFragM_inner_ne k cs a hcallk] at hq
+    simp only [Bool.and_eq_true] at hq
     split
     · rename_i hd
       exact Post.pure (verb_inner_carries e k cs a (by simpa [ANode.attrs] using hd) hkx)
@@ -1382,7 +1552,47 @@ theorem convExprM_frag (e : Env) (r : Rec) (hr : RecOK r Q) (hrM : RecOKM r QM) 
       by_cases hmk : k = .math
       · subst hmk
         show Post (r.math ctx _) _
-        exact hrM.math ctx _ hm rfl (by simp only [QM, inFragM, Bool.and_eq_true]; exact hq)
+        exact hrM.math ctx _ hm rfl (by simp only [QM]; rw [inFragM_inner_ne _ _ _ (by decide)]; simp only [Bool.and_eq_true]; exact hq)
+      by_cases hdk : k = .mathDelimited
+      · subst hdk
+        have hsh : delimShapeB cs = true := by simpa [Kind.isMathFlow] using h1
+        show Post (convMathDelimited e r ctx _) _
+        cases cs with
+        | nil => simp [delimShapeB] at hsh
+        | cons c0 rest =>
+          simp only [delimShapeB] at hsh
+          cases hgl : rest.getLast? with
+          | none => simp [hgl] at hsh
+          | some c1 =>
+            simp only [hgl, Bool.and_eq_true] at hsh
+            obtain ⟨⟨hx0, hx1⟩, hmidk⟩ := hsh
+            have hrest := dropLast_getLast rest c1 hgl
+            rw [hrest] at hq hlex ⊢
+            have hnh : ∀ c ∈ c0 :: (rest.dropLast ++ [c1]), (c.kind == .hash) = false := by
+              intro c hc
+              rcases List.mem_cons.mp hc with rfl | hc'
+              · exact expr_not_hash hx0
+              · rcases List.mem_append.mp hc' with hm' | hm'
+                · have := List.all_eq_true.mp hmidk c hm'
+                  simp only [Bool.or_eq_true, beq_iff_eq] at this
+                  rcases this with (hk | hk) | hk
+                  · rw [hk]; rfl
+                  · rw [hk]; rfl
+                  · exact comment_not_hash _ hk
+                · have : c = c1 := by simpa using hm'
+                  rw [this]; exact expr_not_hash hx1
+            have hall := inFragMS_nohash _ hq.2 hnh
+            refine convMathDelimited_carries e r hrM ctx hm c0 c1 rest.dropLast a hd' hx0 hx1
+              ((hall c0 (by simp)).2 hx0) ((hall c1 (by simp)).2 hx1) ?_
+            intro c hc
+            have hcm : c ∈ c0 :: (rest.dropLast ++ [c1]) := by simp [hc]
+            refine ⟨(hall c hcm).1, ?_⟩
+            have := List.all_eq_true.mp hmidk c hc
+            simp only [Bool.or_eq_true, beq_iff_eq] at this
+            rcases this with (hk | hk) | hk
+            · exact Or.inl ⟨hk, (hall c hcm).2 (by unfold isExpr; rw [hk]; rfl)⟩
+            · exact Or.inr (Or.inl hk)
+            · exact Or.inr (Or.inr hk)
       · have hpk : k = .mathPrimes := by
           cases k <;> simp_all [Kind.isMathFlow]
         subst hpk
@@ -1394,7 +1604,8 @@ theorem convMath_frag (e : Env) (r : Rec) (hr : RecOK r Q) (hrM : RecOKM r QM) (
     (n : ANode) (hk : n.kind = .math) (hq : inFragM n = true) :
     Post (convMath e r ctx n) (fun d => Carries d (specAll n)) := by
   obtain ⟨mcs, a, rfl⟩ := inFragM_math_inner n hk hq
-  simp only [inFragM, Bool.and_eq_true] at hq
+  rw [inFragM_inner_ne _ _ _ (by decide)] at hq
+  simp only [Bool.and_eq_true] at hq
   exact convMath_carries e r hr hrM ctx hm mcs a (inFragMS_seq mcs false hq.2)
 
 /-- **The knot, by induction on the fuel**: at every level, the expression, pattern, parenthesis and markup
